@@ -211,6 +211,28 @@ def run_wrapper(case, bus, ex):
         bus.judge("vmap_equals_loop", float(np.max(np.abs(got - eager))) / S, TOL, ("ForcedStepper", "vmap"), witness=dict(wrapper="ForcedStepper"))
         got = np.asarray(eqx.filter_jit(w)(U[0], F[0]))
         bus.judge("jit_equals_eager", float(np.max(np.abs(got - eager[0]))) / S, TOL, ("ForcedStepper", "filter_jit"), witness=dict(wrapper="ForcedStepper"))
+        # batch of members, each with its own time-constant forcing: rolling out the mapped stepper == mapping the rollout == the one-at-a-time loop,
+        # and a member's result does not depend on another member's forcing
+        n = 3
+        loop = []
+        for i in range(3):
+            v, trj = U[i], []
+            for _ in range(n):
+                v = w(v, F[i])
+                trj.append(np.asarray(v))
+            loop.append(np.stack(trj))
+        loop = np.stack(loop)
+        a = np.swapaxes(np.asarray(ex.rollout(jax.vmap(w), n, takes_aux=True, constant_aux=True)(U, F)), 0, 1)
+        b = np.asarray(jax.vmap(ex.rollout(w, n, takes_aux=True, constant_aux=True))(U, F))
+        c = np.asarray(jax.jit(ex.repeat(jax.vmap(w), n, takes_aux=True, constant_aux=True))(U, F))
+        for label, got, ref in (("rollout(vmap(forced),constant_aux)^T", a, loop), ("vmap(rollout(forced,constant_aux))", b, loop), ("jit(repeat(vmap(forced),constant_aux))", c, loop[:, -1])):
+            ok = got.shape == ref.shape
+            bus.judge("rollout_nesting", float(np.max(np.abs(got - ref))) / S if ok else np.inf, TOL * n, ("ForcedStepper", label), sample=dict(wrapper="ForcedStepper", program=label),
+                      witness=dict(wrapper="ForcedStepper", program=label, shapes=[list(got.shape), list(ref.shape)]))
+        F2 = F.at[1].multiply(2.0)
+        a2 = np.swapaxes(np.asarray(ex.rollout(jax.vmap(w), n, takes_aux=True, constant_aux=True)(U, F2)), 0, 1)
+        same = np.array_equal(a[0], a2[0]) and np.array_equal(a[2], a2[2])
+        bus.judge("non_interference", 0.0 if same else 1.0, 0.5, ("ForcedStepper", "aux of another member"), witness=dict(wrapper="ForcedStepper", what="forcing of member 1 changed"))
         tr = np.asarray(ex.rollout(w, 3, takes_aux=True, constant_aux=False)(U[0], F))
         u = U[0]
         for i in range(3):
